@@ -2,9 +2,11 @@
 # L7 `Router` — the router thread as a pure event processor, and the proxy that feeds it
 
 `step` is the body of `Router::run` for one element of a `select()` batch; `run = foldl step`.
-`Variant` flags reproduce the code before the `fix:` commit: `breakInnerOnly` (the `break` on `Shutdown` only left the
+`Variant` flags reproduce the code before the `fix:` commits: `breakInnerOnly` (the `break` on `Shutdown` only left the
 inner loop: handlers kept and invoked), `panicOnWakeClosed` (`ChannelClosed(wakeup id)` hit `handlers.remove(..).unwrap()`),
-`ackBeforeDrop`.  The theorems are about `fixed`.
+`ackBeforeDrop`, `oneMsgPerWake` (one wake-up message per request and one blocking `recv` per wake-up: the wake-up channel
+fills up when a callback registers routes faster than the router returns to `select`).  The theorems are about `fixed`:
+a wake-up makes the router serve *everything* queued (`drainQ`), and an empty queue is not an error.
 -/
 namespace Router
 
@@ -12,10 +14,11 @@ structure Variant where
   breakInnerOnly : Bool
   panicOnWakeClosed : Bool
   ackBeforeDrop : Bool
+  oneMsgPerWake : Bool
 deriving Repr, DecidableEq
 
-def fixed : Variant := ⟨false, false, false⟩
-def legacy : Variant := ⟨true, true, true⟩
+def fixed : Variant := ⟨false, false, false, false⟩
+def legacy : Variant := ⟨true, true, true, true⟩
 
 inductive RMsg | addRoute (r : Nat) | shutdown (caller : Nat)
 deriving Repr, DecidableEq
@@ -45,11 +48,20 @@ def lookup (h : List (Nat × Nat)) (id : Nat) : Option Nat := (h.find? (·.1 = i
 
 def dropAll (st : St) : St := { st with log := st.log ++ st.handlers.map (fun p => Eff.dropH p.2), handlers := [] }
 
+/-- serve the proxy's queue (repaired code): everything that is queued, in order; a shutdown request ends the router -/
+def drainQ (st : St) : List RMsg → St
+  | [] => { st with msgq := [] }
+  | .addRoute r :: q => drainQ { st with handlers := st.handlers ++ [(st.nextId, r)], nextId := st.nextId + 1 } q
+  | .shutdown c :: q =>
+    let st := dropAll { st with msgq := q }
+    { st with log := st.log ++ [.ack c, .stop], stopped := true }
+
 /-- `Router::run`'s body for one event -/
 def step (V : Variant) (st : St) (e : Ev) : St :=
   if st.stopped then st else
   match e with
   | .wake =>
+    if !V.oneMsgPerWake then drainQ st st.msgq else
     match st.msgq with
     | [] => { st with log := st.log ++ [.panic] }            -- would block forever on msg_receiver.recv(): contract violation
     | .addRoute r :: q => { st with msgq := q, handlers := st.handlers ++ [(st.nextId, r)], nextId := st.nextId + 1 }
@@ -80,7 +92,7 @@ def run (V : Variant) (st : St) (es : List Ev) : St := es.foldl (step V) st
 /-- contract on the event stream (from C06 and the proxy's pairing of wake-ups with queued messages):
 a `msg`/`closed` event only for a currently registered id; a `wake` only when a proxy message is queued -/
 def okEv (st : St) : Ev → Prop
-  | .wake => st.msgq ≠ []
+  | .wake => True                    -- a wake-up with nothing queued is harmless in the repaired code
   | .wakeClosed => True
   | .msg id _ => (lookup st.handlers id).isSome
   | .closed id => (lookup st.handlers id).isSome
